@@ -108,7 +108,8 @@ def run(chk, replay_path):
         if not o["prior_ok"]:
             chk.diverge("Usage", "prior-content-altered", c, "usage() changed what the stream already held")
             continue
-        execs.append([dict(e="Usage", decl=tla_decl(c), fresh=lines_of(o["fresh"]), prior=lines_of(o["prior"]), cout=lines_of(o["cout"]))])
+        execs.append([dict(e="Usage", decl=tla_decl(c), fresh=lines_of(o["fresh"]), prior=lines_of(o["prior"]), cout=lines_of(o["cout"]),
+                           movedc=lines_of(o["movedc"]), moveda=lines_of(o["moveda"]))])
         meta.append((c, o))
     rej, st = vc.validate_trace("options/OptUsageTrace", "options/OptUsageTrace.cfg", execs, chk.out, "trace", batch=600, max_rejections_per_batch=4, xmx="4g")
     chk.states += st["states"]
@@ -123,6 +124,8 @@ def run(chk, replay_path):
         extra = ""
         if reason == "SameOnPriorContent":
             extra = "\n--- with prior content %r ---\n%s" % (bytes(c["prior"]).decode("latin-1"), bytes(o["prior"]).decode("latin-1")[:600])
+        if reason.startswith("SameAfterMove"):
+            extra = "\n--- usage of the moved parser ---\n%s" % bytes(o["movedc"] if "Construction" in reason else o["moveda"]).decode("latin-1")[:900]
         if reason == "SameOnCout":
             extra = "\n--- on std::cout ---\n%s" % bytes(o["cout"]).decode("latin-1")[:600]
         chk.diverge("Usage", reason, c, "usage text violates %s:\n%s%s" % (reason, txt[:1500], extra), artefact=path)
